@@ -114,6 +114,14 @@ CHECKS = {
             'program must yield the intermediates and stdout of plain exec; 343 nestings of three permission scopes never '
             'widen the outer one; runtime errors are wrapped with cause and line.',
             BASE_NOTE),
+    'C20': ('E2-enum', 'model_checking',
+            'bounded-exhaustive enumeration of value shape x hostile string x tree-view option combination; strict tokenizer + differential skeleton against a benign twin',
+            'Every (shape, hostile string, option combination) is rendered twice: the value and its twin whose '
+            'metacharacters are letters. The strict tokenizer must find a properly nested document, the element/attribute '
+            'skeletons must be identical (no datum can introduce an element or attribute), no datum may sit in '
+            'script/style/comment, every key and leaf must be present, the value must be untouched; thorough covers the full '
+            'product of 10 options (6912 combinations).',
+            BASE_NOTE),
     'C02': ('E1-statespace', 'model_checking',
             'explicit-state BFS to closure over the real pg.List/pg.Dict with a lock-step plain list/dict reference model',
             'Every (reachable content, operation) pair over the list/dict API menu with all indices/slices/steps within '
